@@ -60,7 +60,7 @@ func hasSkip(path *Path) bool {
 // ruleMutateRelay (C1): every accepted replicated change is followed by exactly one relay of its
 // class on the same path; no relay without a change (except relay-only classes).
 func ruleMutateRelay(r *Run) {
-	if len(r.Undecided) > 0 {
+	if r.broken() {
 		return
 	}
 	r.resolveMutatorTable()
@@ -170,7 +170,7 @@ func ruleMutateRelay(r *Run) {
 // ruleSenderExcluded (C2): the sender argument of every relay is the acting participant; the relay
 // goes to the acting connection's own session.
 func ruleSenderExcluded(r *Run) {
-	if len(r.Undecided) > 0 {
+	if r.broken() {
 		return
 	}
 	n := 0
@@ -285,7 +285,7 @@ func (r *Run) flagClasses() map[*types.Const]string {
 
 func ruleFlagWrap(r *Run) {
 	m := r.M()
-	if len(r.Undecided) > 0 {
+	if r.broken() {
 		return
 	}
 	fc := r.flagClasses()
@@ -589,7 +589,7 @@ func (r *Run) checkFlagClosure(outer *Func, lit *ast.FuncLit, class string) {
 // updates go to the callback's subscriber list.
 func ruleNotifyGated(r *Run) {
 	m := r.M()
-	if len(r.Undecided) > 0 {
+	if r.broken() {
 		return
 	}
 	classes := map[string]string{
@@ -674,7 +674,7 @@ var ownerRestricted = map[string]string{
 
 func ruleOwnerGuard(r *Run) {
 	m := r.M()
-	if len(r.Undecided) > 0 {
+	if r.broken() {
 		return
 	}
 	n := 0
@@ -739,7 +739,7 @@ func ruleOwnerGuard(r *Run) {
 
 // ruleCascade (E4): removing an entity is preceded by dropping its components from the same session.
 func ruleCascade(r *Run) {
-	if len(r.Undecided) > 0 {
+	if r.broken() {
 		return
 	}
 	n := 0
